@@ -271,10 +271,13 @@ func (x *g) arg(pattern bool) {
 	case 0:
 		x.sb.WriteString(x.word())
 	case 1:
-		if x.rng.Intn(2) == 0 {
+		switch x.rng.Intn(3) {
+		case 0:
 			x.sb.WriteString("'s\nq\n\nr é'")
-		} else {
+		case 1:
 			x.sb.WriteString("'s q\n \\n \"'")
+		default:
+			x.sb.WriteString("'s\r\nq \r\n\r\nr'") // single-quoted text is verbatim, carriage returns included
 		}
 	default:
 		x.dq(pattern)
@@ -359,9 +362,22 @@ func gen(body []byte) *core.Verdict {
 	}
 	json.Unmarshal(body, &q)
 	x := &g{rng: rand.New(rand.NewSource(q.Seed*32452843 + int64(q.Tid)))}
+	wide := false // (very long lines are explored exhaustively: MCText_wide)
 	for i, n := 0, 1+x.rng.Intn(3); i < n; i++ {
 		if x.rng.Intn(2) == 0 {
 			x.ws()
+		}
+		if wide && i == 1 || wide && n == 1 {
+			fill := 4090 + x.rng.Intn(20)
+			switch x.rng.Intn(3) {
+			case 0:
+				x.sb.WriteString(strings.Repeat(" ", fill))
+			case 1:
+				x.sb.WriteString("d \"" + strings.Repeat("a", fill) + "\"; ")
+			default:
+				x.sb.WriteString("/*" + strings.Repeat("c", fill) + "*/")
+			}
+			wide = false
 		}
 		x.stmt(0)
 	}
@@ -410,9 +426,9 @@ func gen(body []byte) *core.Verdict {
 
 func cfgs(tier string) []string {
 	if tier == "thorough" {
-		return []string{"raw5", "dq1_6", "dq2_6", "dq3_6", "pat_6", "patblk_5", "cmt_6", "sq_6", "mb_5", "tok5"}
+		return []string{"raw5", "dq1_6", "dq2_6", "dq3_6", "pat_6", "patblk_5", "cmt_6", "sq_6", "mb_5", "wide_3", "tok5"}
 	}
-	return []string{"raw4", "dq1_5", "dq2_5", "dq3_5", "pat_5", "patblk_5", "cmt_5", "sq_5", "mb_4", "tok5"}
+	return []string{"raw4", "dq1_5", "dq2_5", "dq3_5", "pat_5", "patblk_5", "cmt_5", "sq_5", "mb_4", "wide_2", "tok5"}
 }
 
 func check(r *core.Run, prop string) {
@@ -420,7 +436,7 @@ func check(r *core.Run, prop string) {
 	if r.Tier == "thorough" {
 		n = 6000
 	}
-	r.Rule = "A: every text over a 16-symbol alphabet (every character class of the reader, a multi-byte character included) up to the bound; every continuation of 7 prefixes (plain, tab-indented, `pattern`, inside the block of a pattern statement (closed by a fixed suffix), after a block comment, after a single-quoted piece and '+', after multi-byte comments and strings) over a 10-symbol string alphabet; every sequence of whole lexemes (keyword, argument, multi-line double-quoted string, single-quoted string, +, ;, {, }, both comment forms, blank, LF, CR LF) up to the bound; each parsed by yang.Parse and compared with the reader of Text.tla (acceptance, keywords, argument presence, exact argument strings, nesting, order); B: grammar-directed random modules of nesting 6 with comments, concatenations, multi-line strings, and single-character corruptions, judged by TextTrace.tla. Non-trivial = accepted non-empty forest or exactly one token-level fault."
+	r.Rule = "A: every text over a 16-symbol alphabet (every character class of the reader, a multi-byte character included) up to the bound; every continuation of 7 prefixes (plain, tab-indented, `pattern`, inside the block of a pattern statement (closed by a fixed suffix), after a block comment, after a single-quoted piece and '+', after multi-byte comments and strings) over a 10-symbol string alphabet; every text of up to 2 (3) characters after a statement and 4093 blanks on one line (columns beyond 4096); every sequence of whole lexemes (keyword, argument, multi-line double-quoted string, single-quoted string, +, ;, {, }, both comment forms, blank, LF, CR LF) up to the bound; each parsed by yang.Parse and compared with the reader of Text.tla (acceptance, keywords, argument presence, exact argument strings, nesting, order); B: grammar-directed random modules of nesting 6 with comments, concatenations, multi-line strings, and single-character corruptions, judged by TextTrace.tla. Non-trivial = accepted non-empty forest or exactly one token-level fault."
 	r.Exhaustive = true
 	r.Assumptions = []string{"the four constructs the quantifier leaves ambiguous are executed (crash monitor) but not compared", "a backslash before a literal line break inside a pattern argument is treated as ambiguous too"}
 	core.CaseSuffix = `,"prop":"` + prop + `"}`
